@@ -85,3 +85,22 @@ Proof.
   - apply Rle_trans with 1; [|lra]. rewrite <- Rinv_1. apply Rinv_le_contravar; lra.
   - replace 64 with (2 ^ 6) by (cbn; lra). apply pow2_mono. lia.
 Qed.
+
+(* ---- tie to the source: ViewBox.Size / AspectMeet / AspectSlice of ivg.go, translated from /repo's working
+   tree by harness/gosrc.go on every run (gen/GoSrc.v), are the float32 instance of the definition the
+   theorems above are about. ---- *)
+From IVG Require Import GoSem GoSrc GenEqGeom.
+
+Theorem code_Size : forall v, go_ivg_ViewBox_Size v = vb_size F32ops (vminx v) (vminy v) (vmaxx v) (vmaxy v).
+Proof. exact GenEqGeom.go_ViewBox_Size_eq. Qed.
+Print Assumptions code_Size.
+
+Theorem code_AspectMeet : forall v dx dy ax ay, go_ivg_ViewBox_AspectMeet v dx dy ax ay =
+  aspect_meet F32ops (vminx v) (vminy v) (vmaxx v) (vmaxy v) dx dy ax ay.
+Proof. exact GenEqGeom.go_AspectMeet_eq. Qed.
+Print Assumptions code_AspectMeet.
+
+Theorem code_AspectSlice : forall v dx dy ax ay, go_ivg_ViewBox_AspectSlice v dx dy ax ay =
+  aspect_slice F32ops (vminx v) (vminy v) (vmaxx v) (vmaxy v) dx dy ax ay.
+Proof. exact GenEqGeom.go_AspectSlice_eq. Qed.
+Print Assumptions code_AspectSlice.
